@@ -638,7 +638,7 @@ def cases(ctx):
             out.append(dict(c0, kill=k))
     # (2b) a table larger than SQLite's page cache: create, commit, modify every row twice, kill before the commit --
     # uncommitted pages have been spilled into the database file by then; the reader must still find the committed table
-    big = {'n': ctx.scale(60000, 150000), 'steps': [['commit'], ['update_column', 3, 'f64'], ['update_column', 5, 'list_float']], 'close': 'keep',
+    big = {'n': ctx.scale(60000, 99000), 'steps': [['commit'], ['update_column', 3, 'f64'], ['update_column', 5, 'list_float']], 'close': 'keep',
            'fix_chain': False, 'r0': 'nofile', 'model_n': 7}
     out.append(dict(big, op='store_scenario', kind='kill', name='big.db', kill=['commit', 2]))
     if ctx.thorough:
